@@ -40,7 +40,7 @@ func Spec() *mon.Spec {
 
 func gen(g *mon.Gen) {
 	rng := g.Rng
-	reps := g.Pick(6, 60)
+	reps := g.Pick(6, 400)
 	for fr := 0; fr < 2; fr++ {
 		for _, fc := range []uint8{1, 2} {
 			for n := 1; n <= 250; n++ {
